@@ -718,6 +718,7 @@ func main() {
 	rep := flag.String("report", "", "JSON report")
 	scratchOut := flag.String("scratch", "", "Coq output of the scratch pass (Scratch_gen.v)")
 	errflowOut := flag.String("errflow", "", "Coq output of the error-flow pass (ErrFlow_gen.v)")
+	accumOut := flag.String("accum", "", "Coq output of the accumulator pass (Accum_gen.v)")
 	flag.Parse()
 	fset := token.NewFileSet()
 	var dirs []string
@@ -887,13 +888,23 @@ func main() {
 			os.Exit(2)
 		}
 	}
+	var aests []accEst
+	if *accumOut != "" {
+		var aerrs []string
+		aests, aerrs = accumPass(*repo)
+		parseErrors = append(parseErrors, aerrs...)
+		if err := writeAccum(*accumOut, aests); err != nil {
+			fmt.Fprintln(os.Stderr, err)
+			os.Exit(2)
+		}
+	}
 	if *rep != "" {
 		n := 0
 		for _, s := range sites {
 			n += len(s.Acc)
 		}
 		b, _ := json.MarshalIndent(map[string]interface{}{"ok": len(parseErrors) == 0 && len(sites) > 0, "closures": len(sites), "accesses": n,
-			"parse_errors": parseErrors, "sites": sites, "scratch_methods": len(scr), "clone_fields": cfs, "errscopes": escopes}, "", " ")
+			"parse_errors": parseErrors, "sites": sites, "scratch_methods": len(scr), "clone_fields": cfs, "errscopes": escopes, "estimators": aests}, "", " ")
 		os.WriteFile(*rep, b, 0644)
 	}
 	if len(parseErrors) > 0 {
